@@ -1109,3 +1109,75 @@ def render_iter_builder(gen, spec, func_texts):
         '  %s.loop env fuel ids []' % fname])
     func_texts.append(text)
     gen.items.append({'kind': 'function', 'name': fname, 'lines': [a, b], 'may_raise': True})
+
+
+# =================================================================================================
+# descriptors.py `BufrTemplate.original_descriptor_ids` (C14): the work queue over descriptor objects (`Py.Small.Descr`)
+def render_queue_walk(gen, spec, func_texts):
+    from harness import py2lean
+    mod = gen.mod
+    qs = spec['queue_walk']
+
+    def bad(node, what):
+        raise py2lean.Py2LeanUnsupported(mod.relpath, node, 'original_descriptor_ids: ' + what)
+    cn = mod.classes.get(qs['class'], [])
+    if len(cn) != 1:
+        bad(0, 'class %s not found exactly once' % qs['class'])
+    ms = [n for n in cn[0].body if isinstance(n, ast.FunctionDef) and n.name == qs['method']]
+    if len(ms) != 1:
+        bad(cn[0], 'method %s not found exactly once' % qs['method'])
+    fn = ms[0]
+    body = list(fn.body)
+    if body and isinstance(body[0], ast.Expr) and isinstance(body[0].value, ast.Constant):
+        body = body[1:]
+    if not (len(body) == 4 and _dump(body[0]) == _dump(ast.parse('ret = []').body[0])
+            and _dump(body[1]) == _dump(ast.parse('members = list(self.members)').body[0])
+            and isinstance(body[2], ast.While) and _dump(body[2].test) == _dump(ast.Name('members', ast.Load())) and not body[2].orelse
+            and _dump(body[3]) == _dump(ast.parse('return ret').body[0])):
+        bad(fn, 'body is not `ret = []; members = list(self.members); while members: …; return ret`')
+    loop = body[2].body
+    if not loop or _dump(loop[0]) != _dump(ast.parse('member = members.pop(0)').body[0]):
+        bad(body[2], 'the loop does not start with `member = members.pop(0)`')
+    tests = {'ReplicationDescriptor': 'Py.Small.Descr.isReplication member',
+             'DelayedReplicationDescriptor': 'Py.Small.Descr.isDelayed member',
+             'FixedReplicationDescriptor': 'Py.Small.Descr.isFixed member',
+             'SequenceDescriptor': 'Py.Small.Descr.isSequence member'}
+
+    def block(stmts, ind):
+        out = []
+        for st in stmts:
+            d = _dump(st)
+            if d == _dump(ast.parse('ret.append(member.id)').body[0]):
+                out.append(ind + 'let ret := ret ++ [Py.Small.Descr.idWith eid member]')
+            elif d == _dump(ast.parse('ret.append(member.factor.id)').body[0]):
+                out.append(ind + 'let t ← Py.Small.Descr.factorId eid member')
+                out.append(ind + 'let ret := ret ++ [t]')
+            elif d == _dump(ast.parse('members = member.members + members').body[0]):
+                out.append(ind + 'let members := Py.Small.Descr.membersOf member ++ members')
+            elif d == _dump(ast.parse('members = members + member.members').body[0]):
+                out.append(ind + 'let members := members ++ Py.Small.Descr.membersOf member')
+            elif (isinstance(st, ast.If) and not st.orelse and _is_call(st.test, 'isinstance', 2)
+                  and _dump(st.test.args[0]) == _dump(ast.Name('member', ast.Load()))
+                  and isinstance(st.test.args[1], ast.Name) and st.test.args[1].id in tests):
+                out.append(ind + 'let (ret, members) ← (if %s then (do' % tests[st.test.args[1].id])
+                out += block(st.body, ind + '    ')
+                out.append(ind + '    pure (ret, members)) else pure (ret, members))')
+            else:
+                bad(st, 'statement is not in the table of the queue walk')
+        return out
+    steps = block(loop[1:], '      ')
+    a, b, _ = mod.src(fn)
+    text = '\n'.join([
+        '/-- %s:%d-%d  `%s.%s`: the `while members:` loop over the work queue (`members.pop(0)` takes the head;' % (mod.relpath, a, b, qs['class'], qs['method']),
+        '    `eid`: the `id` attribute of an element of Table B).  Structural recursion on the fuel. -/',
+        'def %s.%s.loop {ε : Type} (eid : ε → Int) : Nat → List (Py.Small.Descr ε) → List Int → Except Py.Exc (List Int)' % (qs['class'], qs['method']),
+        '  | 0, _, _ => .error .outOfFuel',
+        '  | _ + 1, [], ret => .ok ret',
+        '  | fuel + 1, member :: members, ret => (do'] + steps + [
+        '      loop eid fuel members ret)',
+        '',
+        '/-- `%s.%s` of a template whose `members` are `ms` -/' % (qs['class'], qs['method']),
+        'def %s.%s {ε : Type} (eid : ε → Int) (fuel : Nat) (ms : List (Py.Small.Descr ε)) : Except Py.Exc (List Int) :=' % (qs['class'], qs['method']),
+        '  %s.%s.loop eid fuel ms []' % (qs['class'], qs['method'])])
+    func_texts.append(text)
+    gen.items.append({'kind': 'method', 'name': '%s.%s' % (qs['class'], qs['method']), 'lines': [a, b], 'may_raise': True})
